@@ -39,9 +39,19 @@ def parse_proto(p):
     return ret, name, params
 
 
+GEN_TU = os.environ.get('GEN_TU')            # alternative translation unit (Box/Rect wrappers)
+GEN_UNIT = os.environ.get('GEN_UNIT', 'c20_wrapgen')
+GEN_SKIP = set(x for x in os.environ.get('GEN_SKIP', '').split(',') if x)
+GEN_RECORD = [x for x in os.environ.get('GEN_RECORD', '').split(',') if x]   # in-repo (header-defined) methods to record by name
+
+
 def survey(names):
     base = U.load_unit('c20_wrappers')
     base['recorder_names'] = 'qualified'
+    if GEN_TU:
+        base['tu'] = '#include "%s"' % GEN_TU
+    if GEN_RECORD:
+        base['record_calls'] = GEN_RECORD
     out = {}
     for q in names:
         u = dict(base)
@@ -173,23 +183,23 @@ def gen_case(q, info, report):
     if ret == 'void':
         body.append('    %s;' % call)
     elif ret.endswith('*'):
-        body.append('    void *r = %s;' % call)
+        body.append('    void *ret_ = %s;' % call)
     else:
-        body.append('    %s r = %s;' % (ret, call))
+        body.append('    %s ret_ = %s;' % (ret, call))
     desc = '%s -> %s: every argument reaches the C++ parameter of the same name' % (name, rec['callee'])
     body.append('    __CPROVER_assert(%s, "%s");' % (' && '.join(conds), desc))
     if has_mem and ret.endswith('*') and info['placement']:
-        body.append('    IN_PLACE(r, mem);')
+        body.append('    IN_PLACE(ret_, mem);')
     if ret in SCALARS and rec['ret_recorded']:
         gret = [g for g in rec['ghosts'] if g.endswith('_ret')][0]
         grt = gret.rsplit(' ', 1)[0]
         if grt == ret or (grt == '_Bool' and ret == 'int'):
-            eq = '(r == ghost_%s_ret || (r != r && ghost_%s_ret != ghost_%s_ret))' % (cname, cname, cname) if ret in ('double', 'float') else 'r == ghost_%s_ret' % cname
+            eq = '(ret_ == ghost_%s_ret || (ret_ != ret_ && ghost_%s_ret != ghost_%s_ret))' % (cname, cname, cname) if ret in ('double', 'float') else 'ret_ == ghost_%s_ret' % cname
             if grt == '_Bool':
-                eq = '(r == 0 || r == 1) && (r != 0) == (ghost_%s_ret != 0)' % cname
+                eq = '(ret_ == 0 || ret_ == 1) && (ret_ != 0) == (ghost_%s_ret != 0)' % cname
             body.append('    __CPROVER_assert(%s, "%s returns what %s returned");' % (eq, name, rec['callee']))
         else:
-            body.append('    __CPROVER_assert((double)r == (double)ghost_%s_ret, "%s returns what %s returned (converted %s -> %s)");' % (cname, name, rec['callee'], grt, ret))
+            body.append('    __CPROVER_assert((double)ret_ == (double)ghost_%s_ret, "%s returns what %s returned (converted %s -> %s)");' % (cname, name, rec['callee'], grt, ret))
     body.append('  }')
     if unmatched or unused_c:
         report.append('%s: C++ parameters without a same-named C parameter: %s; C parameters not paired: %s' % (name, unmatched, unused_c))
@@ -197,11 +207,14 @@ def gen_case(q, info, report):
 
 
 def main():
-    names = open('/tmp/c20_ok.txt').read().split()
+    names = open(os.environ.get('GEN_NAMES', '/tmp/c20_ok.txt')).read().split()
     sv = survey(names)
     report, cases, targets = [], [], []
     for q in sorted(sv):
         info = sv[q]
+        if q in GEN_SKIP:
+            report.append('%s: skipped by hand (works on a by-value copy of the object behind the handle: identity pairing does not apply)' % q)
+            continue
         if q in SKIP or len(info['recorders']) != 1 or info['dropped']:
             continue
         if info['loops']:
@@ -233,15 +246,16 @@ static inline void *placement_hook(void *p) { ghost_placement_mem = p; ghost_pla
     per = 30
     jobs = []
     for k in range(0, len(cases), per):
-        hn = 'h_wrapgen_%d' % (k // per)
+        hn = 'h_%s_%d' % (GEN_UNIT.split('_', 1)[1], k // per)
         spec += 'void %s(void) {\n  char mem[256];\n  HARNESS_END;\n%s\n}\n' % (hn, '\n'.join(cases[k:k + per]))
-        jobs.append({'name': 'wrapgen_%d' % (k // per), 'harness': hn, 'backend': 'sat', 'timeout': 600})
+        jobs.append({'name': '%s_%d' % (GEN_UNIT.split('_', 1)[1], k // per), 'harness': hn, 'backend': 'sat', 'timeout': 600})
     spec += '#endif\n'
     unit = {
         'properties': ['C20'],
         'doc': 'bindings/c: %d further wrappers (each makes exactly one C++ API call): generated data-flow contracts -- every C argument reaches the C++ parameter of the same name, placement-new receives exactly `mem`, scalar results are passed through. Pairing oracle: parameter names of the public headers (tools/gen_c20.py).' % len(targets),
-        'tu': '#include "/verif/contracts/tu/c20_wrappers.cpp"',
+        'tu': '#include "%s"' % (GEN_TU or '/verif/contracts/tu/c20_wrappers.cpp'),
         'record_external_calls': True,
+        **({'record_calls': GEN_RECORD} if GEN_RECORD else {}),
         'recorder_names': 'qualified',
         'targets': [{'qname': q, 'cname': q} for q in targets],
         'jobs': jobs,
@@ -250,9 +264,9 @@ static inline void *placement_hook(void *p) { ghost_placement_mem = p; ghost_pla
                     'pairing by parameter name: a C++ parameter with no same-named C parameter gets no assertion (listed in c20_wrapgen.report.txt)'],
         'not_reached': ['wrappers with callbacks, std::vector marshalling or no C++ API call (see c20_lifecycle for vec/get)', 'enum-typed arguments beyond those in c20_wrappers/c20_enums'],
     }
-    json.dump(unit, open(os.path.join(VERIF, 'contracts', 'c20_wrapgen.unit.json'), 'w'), indent=1)
-    open(os.path.join(VERIF, 'contracts', 'c20_wrapgen.spec.h'), 'w').write(spec)
-    open(os.path.join(VERIF, 'contracts', 'c20_wrapgen.report.txt'), 'w').write('\n'.join(report) + '\n')
+    json.dump(unit, open(os.path.join(VERIF, 'contracts', GEN_UNIT + '.unit.json'), 'w'), indent=1)
+    open(os.path.join(VERIF, 'contracts', GEN_UNIT + '.spec.h'), 'w').write(spec)
+    open(os.path.join(VERIF, 'contracts', GEN_UNIT + '.report.txt'), 'w').write('\n'.join(report) + '\n')
     print(len(targets), 'wrappers generated;', len(report), 'report lines')
 
 
